@@ -414,3 +414,9 @@ ASSUMPTIONS = ["KeplerianOrbit.__init__ under the argument pattern (period, ecc,
                "exoplanet-core ops.kepler returns (sin f, cos f) of the true anomaly - the same function as twobody's solver up to tolerance",
                "pm.Normal(..., observed=y) adds sum ln N(y | mu, sigma); pm.Deterministic registers an expression"]
 NOT_DECIDED = ["model.logp() as a function of the physical parameters (pymc transforms / Jacobians): 'log-density up to a constant' is assumed"]
+
+# how the priors are declared (which distribution, with which scale, tagged with which unit): default_linear_prior / default_nonlinear_prior /
+# FixedCompanionMass.dist, contracts stated in c09.py - the MCMC model depends on them
+from . import c09 as _C09   # noqa: E402
+from .chain import clone as _clone9   # noqa: E402
+CONTRACTS += [_clone9(_c, callees=getattr(_c, "callees", None) or _C09.CALLEES, lib=_C09.LIB, hooks=_C09.HOOKS, home="c09") for _c in ([_C09.fcm])]
